@@ -19,6 +19,7 @@ import os
 import queue as realqueue
 import shutil
 import struct
+import time
 
 from wdmc import fsops, macsim, wd, winsim
 from wdmc.fsops import inside, parent
@@ -29,8 +30,9 @@ RULE = (
     "(thorough) entries and every burst of 1..2 (quick) / 1..3 (thorough) operations of the C01 alphabet that respects "
     "the directory pacing condition (plus every such burst of <= 2 operations ending in the deletion of the watched "
     "root): render the operations into the native notification sequence (W: variants parent-MODIFIED off/on x "
-    "cross-directory rename as OLD+NEW / REMOVED+ADDED, recursive and non-recursive watch; M: recursive and "
-    "non-recursive watch, suppress_history off/on), enumerate EVERY cut of that sequence into batches (all 2^(n-1) "
+    "cross-directory rename as OLD+NEW / REMOVED+ADDED, recursive and non-recursive watch; parent-MODIFIED on only for "
+    "bursts <= 2; M: coalesced item placed at its last / first change, recursive and non-recursive watch, "
+    "suppress_history off/on), enumerate EVERY cut of that sequence into batches (all 2^(n-1) "
     "cuts for n <= cap records, else all cuts with <= 3 cut points - reported) x two delivery modes (all batches after "
     "the last operation / each batch right after the operation that produced its last record; identical schedules are "
     "run once); one execution = fresh scratch tree + fresh real emitter + the schedule; oracles: C01 replay equality, "
@@ -60,13 +62,17 @@ ASSUMPTIONS = [
     "W: whether ReadDirectoryChangesW may return RENAMED_OLD_NAME as the last record of one buffer and RENAMED_NEW_NAME "
     "as the first of the next is not specified by the documentation; the simulator takes the permissive reading (every "
     "cut), findings that need such a cut say so in their fingerprint",
-    "M renderer: one item per (path, inode) and batch, flags of successive changes OR-ed, item kept at the position of "
-    "its first change; create -> ItemCreated; write/truncate -> ItemModified; chmod -> ItemInodeMetaMod; delete -> "
-    "ItemRemoved; rename inside -> two ItemRenamed items with the same inode (old path, new path; nothing for a replaced "
-    "target, nothing for descendants); move out / move in -> one ItemRenamed item; root deleted -> RootChanged item for "
-    "the root (inode None); ItemIsFile/ItemIsDir always set; coalescing never crosses a batch boundary (the 'sticky "
-    "flags of earlier batches' behaviour the emitter's comments mention is not simulated); inodes are the real tmpfs "
-    "inode numbers (never reused within an execution)",
+    "M renderer: one item per (path, inode) and batch, flags of successive changes OR-ed; create -> ItemCreated; "
+    "write/truncate -> ItemModified; chmod -> ItemInodeMetaMod; delete -> ItemRemoved; rename inside -> two ItemRenamed "
+    "items with the same inode (old path, new path; nothing for a replaced target, nothing for descendants); move out / "
+    "move in -> one ItemRenamed item; root deleted -> RootChanged item for the root (inode None); ItemIsFile/ItemIsDir "
+    "always set; coalescing never crosses a batch boundary (the 'sticky flags of earlier batches' behaviour the "
+    "emitter's comments mention is not simulated); inodes are the real tmpfs inode numbers (never reused within an "
+    "execution)",
+    "M: where a coalesced item stands inside its batch is not documented; FSEvents.h says the event ID of an item 'comes "
+    "from the most recent event being reported', so the primary reading places the item at its LAST change; the "
+    "alternative (position of the FIRST change) is enumerated as well, and a problem that needs it gets its own "
+    "fingerprint saying so (counterfactual run of the same schedule with the primary placement)",
     "delivery: a batch is processed either after the whole burst or right after the operation that produced its last "
     "record; other delivery points between operations are not enumerated",
     "the replay oracle is fsops.replay_events (C01): created = ensure present with the event's flavour, deleted = remove "
@@ -248,9 +254,8 @@ def _scratch():
         os.makedirs(_SCR["base"], exist_ok=True)
     _SCR["n"] += 1
     b = os.path.join(_SCR["base"], str(_SCR["n"]))
-    os.mkdir(b)
     R, O = os.path.join(b, "R"), os.path.join(b, "O")
-    os.mkdir(R)
+    os.makedirs(R)      # also re-creates the base should somebody have cleaned /dev/shm meanwhile
     os.mkdir(O)
     return b, R, O
 
@@ -322,28 +327,31 @@ def exec_win(h, notifs, steps, recursive):
         deliveries = []          # (batch index, lo, hi, ops done)
         done = 0
         error = None
-        try:
-            for st in steps:
-                if st[0] == "op":
-                    _perform(R, O, h.ops[st[1]], state)
-                    done += 1
-                else:
-                    buf, _n = winsim.encode([notifs[j][1] for j in range(st[1], st[2])])
-                    K.reads.append(("data", buf))
-                    bi = len(deliveries)
-                    deliveries.append((bi, st[1], st[2], done))
-                    em.queue_events(1.0)
-                    _drain(q, R, bi, events)
-            if h.root_gone:
-                K.final_path = "\\Device\\HarddiskVolume1\\$Extend\\$Deleted\\0001"
-                K.reads.append(("error", winsim.ERROR_ACCESS_DENIED))
-                bi = len(deliveries)
-                deliveries.append((bi, len(notifs), len(notifs), done))
+
+        def deliver(lo, hi):
+            nonlocal error
+            bi = len(deliveries)
+            deliveries.append((bi, lo, hi, done))
+            try:
                 em.queue_events(1.0)
-                _drain(q, R, bi, events)
-        except Exception as e:  # noqa: BLE001
-            error = f"{type(e).__name__}: {e}"
-            _drain(q, R, len(deliveries), events)
+            except Exception as e:  # noqa: BLE001 - only the library call is guarded; harness errors propagate
+                error = f"{type(e).__name__}: {e}"
+            _drain(q, R, bi, events)
+
+        for st in steps:
+            if error:
+                break
+            if st[0] == "op":
+                _perform(R, O, h.ops[st[1]], state)
+                done += 1
+            else:
+                buf, _n = winsim.encode([notifs[j][1] for j in range(st[1], st[2])])
+                K.reads.append(("data", buf))
+                deliver(st[1], st[2])
+        if h.root_gone and not error:
+            K.final_path = "\\Device\\HarddiskVolume1\\$Extend\\$Deleted\\0001"
+            K.reads.append(("error", winsim.ERROR_ACCESS_DENIED))
+            deliver(len(notifs), len(notifs))
         sub_flags = [c[2] for c in K.calls if c[0] == "ReadDirectoryChangesW"]
         final = None if h.root_gone else fsops.walk_tree(R)
         return dict(events=events, deliveries=deliveries, final=final, running=em.should_keep_running(), error=error,
@@ -352,7 +360,7 @@ def exec_win(h, notifs, steps, recursive):
         _rm(base)
 
 
-def exec_mac(h, notifs, steps, recursive, suppress_history=False):
+def exec_mac(h, notifs, steps, recursive, suppress_history=False, place="last"):
     api = wd.mod("watchdog.observers.api")
     fse = macsim.fsevents()
     base, R, O = _scratch()
@@ -376,27 +384,28 @@ def exec_mac(h, notifs, steps, recursive, suppress_history=False):
         done = 0
         eid = 100
         error = None
-        try:
-            for st in steps:
-                if st[0] == "op":
-                    _perform(R, O, h.ops[st[1]], state)
-                    done += 1
-                    if not h.root_gone or done < len(h.ops):
-                        bind(done)
-                else:
-                    items = macsim.coalesce([notifs[j][1] for j in range(st[1], st[2])])
-                    natives = []
-                    for p, ident, flags in items:
-                        eid += 1
-                        natives.append(macsim.NativeEvent(R if p is None else R + "/" + p,
-                                                          None if ident is None else bound[ident], flags, eid))
-                    bi = len(deliveries)
-                    deliveries.append((bi, st[1], st[2], done))
+        for st in steps:
+            if error:
+                break
+            if st[0] == "op":
+                _perform(R, O, h.ops[st[1]], state)
+                done += 1
+                if not h.root_gone or done < len(h.ops):
+                    bind(done)
+            else:
+                items = macsim.coalesce([notifs[j][1] for j in range(st[1], st[2])], place)
+                natives = []
+                for p, ident, flags in items:
+                    eid += 1
+                    natives.append(macsim.NativeEvent(R if p is None else R + "/" + p,
+                                                      None if ident is None else bound[ident], flags, eid))
+                bi = len(deliveries)
+                deliveries.append((bi, st[1], st[2], done))
+                try:
                     em.queue_events(1.0, natives)
-                    _drain(q, R, bi, events)
-        except Exception as e:  # noqa: BLE001
-            error = f"{type(e).__name__}: {e}"
-            _drain(q, R, len(deliveries), events)
+                except Exception as e:  # noqa: BLE001 - only the library call is guarded; harness errors propagate
+                    error = f"{type(e).__name__}: {e}"
+                _drain(q, R, bi, events)
         final = None if h.root_gone else fsops.walk_tree(R)
         return dict(events=events, deliveries=deliveries, final=final, running=em.should_keep_running(), error=error)
     finally:
@@ -437,7 +446,12 @@ def common_checks(h, res, recursive, layer):
     if res["final"] != h.states[-1][0]:
         out.append(("INFRA-model", f"reference model {sorted(h.states[-1][0].items())} != disk {sorted(res['final'].items())}", None))
         return out
-    got = fsops.replay_events(h.tree0, evs, recursive)
+    try:
+        got = fsops.replay_events(h.tree0, evs, recursive)
+    except Exception as e:  # noqa: BLE001 - e.g. a moved event whose destination contains its own source
+        out.append(("unreplayable", f"the event stream cannot be replayed ({type(e).__name__}: {e}): a moved event is "
+                                    f"inconsistent with the events before it", None))
+        return out
     final = res["final"]
     if not recursive:
         got, final = _top(got), _top(final)
@@ -563,7 +577,7 @@ def win_contract(h, notifs, res, recursive):
     return out
 
 
-def mac_contract(h, notifs, res, recursive):
+def mac_contract(h, notifs, res, recursive, place="last"):
     """Per-batch translation table of the FSEvents emitter.  Returns [(clause, message, subject_is_child_dir)];
     the flag marks expectations about a DIRECTORY that is a direct child of the root of a non-recursive
     watch (one root cause, see FILTER_FP)."""
@@ -577,7 +591,7 @@ def mac_contract(h, notifs, res, recursive):
             deep_src = e[2] is not None and "/" in e[2]
             deep_dst = e[3] is not None and "/" in e[3]
             if (deep_src and (e[3] is None or deep_dst)) or (deep_dst and e[2] is None):
-                out.append(("non-recursive watch reports an event below the root's direct children", f"event {e[1:6]}", False))
+                out.append(("watch reports an event below the root's direct children", f"event {e[1:6]}", False))
                 break
     for bi, lo, hi, done in res["deliveries"]:
         evs = by_batch.get(bi, [])
@@ -592,7 +606,8 @@ def mac_contract(h, notifs, res, recursive):
                 ren.setdefault(ident, []).append((p, eff))
         ns = [e for e in evs if not e[5]]
         syn = {(_kindname(s[1]), s[2], s[3], s[4]) for s in evs if s[5]}
-        where = f"batch {bi} processed after {done} operation(s), items {_items_str(changes)}"
+        where = _Lazy(lambda bi=bi, done=done, changes=changes: f"batch {bi} processed after {done} operation(s), items "
+                                                                f"{_items_str(changes, place)}")
         shown = [e[1:6] for e in evs]
 
         def visible(src, dest):
@@ -610,8 +625,9 @@ def mac_contract(h, notifs, res, recursive):
                     continue
                 cd = not recursive and kind == "d"
                 gs = find("Moved", old, new)
-                if len(gs) != 1:
-                    out.append((f"table: rename with both halves in one batch -> {len(gs)} moved events with both paths",
+                same = sum(1 for l2 in ren.values() if len(l2) >= 2 and any(a[0] == old for a in l2) and any(a[0] == new for a in l2))
+                if not 1 <= len(gs) <= same:
+                    out.append((f"table: rename with both halves in one batch -> {min(len(gs), 2)} moved events with both paths",
                                 f"{where}: expected exactly one moved event {old!r} -> {new!r}; events: {shown}", cd))
                     continue
                 if gs[0][4] != (kind == "d"):
@@ -628,12 +644,12 @@ def mac_contract(h, notifs, res, recursive):
                     continue
                 cd = not recursive and kind == "d"
                 if eff[0] == "depart":
-                    if len(find("Deleted", p, None)) != 1:
+                    if not 1 <= len(find("Deleted", p, None)) <= sum(1 for k in per_item if k[0] == p):
                         out.append(("table: move out -> no deleted event",
                                     f"{where}: expected one deleted event for {p!r}; events: {shown}", cd))
                 elif ids.get(p) == ident:
                     gs = find("Created", p, None)
-                    if len(gs) != 1:
+                    if not 1 <= len(gs) <= sum(1 for k in per_item if k[0] == p):
                         out.append(("table: move in -> no created event",
                                     f"{where}: expected one created event for {p!r}; events: {shown}", cd))
                         continue
@@ -675,8 +691,20 @@ def mac_contract(h, notifs, res, recursive):
 
 
 
-def _items_str(changes):
-    return [(p, f"#{ident}", macsim.flag_str(flags)) for p, ident, flags in macsim.coalesce([c[1] for c in changes])]
+class _Lazy:
+    """str() computed on demand (message parts that are only needed when an oracle fails)."""
+
+    def __init__(self, f):
+        self.f = f
+
+    def __format__(self, spec):
+        return format(self.f(), spec)
+
+    __str__ = lambda self: self.f()  # noqa: E731
+
+
+def _items_str(changes, place="last"):
+    return [(p, f"#{ident}", macsim.flag_str(flags)) for p, ident, flags in macsim.coalesce([c[1] for c in changes], place)]
 
 
 # =================================================================================================
@@ -716,9 +744,8 @@ def classify_win(h, notifs, steps, res, detail, recursive):
         detail = bad[0][2]
     if detail["wrong"] and not detail["missing"] and not detail["extra"]:
         return LATE_FP
-    sig = " ".join(sorted({winsim.ACTION_NAMES[n[1][0]] for n in notifs}))
-    return (f"win: replay-mismatch other [{'rec' if recursive else 'flat'}; records {sig}] missing={len(detail['missing'])} "
-            f"stale={len(detail['extra'])} wrong={len(detail['wrong'])}")
+    return (f"win: replay-mismatch unclassified [{'recursive' if recursive else 'non-recursive'}; missing={bool(detail['missing'])} "
+            f"stale={bool(detail['extra'])} wrong-kind={bool(detail['wrong'])}]")
 
 
 FILTER_FP = ("mac non-recursive: events about a DIRECTORY that is a direct child of the root (created / deleted / modified / "
@@ -728,12 +755,16 @@ TWICE_FP = ("mac: item renamed twice inside one batch (the ItemRenamed flags of 
             "a->b->a) -> only the first pairing is reported, stale/missing name in the replay")
 
 
-def classify_mac(h, notifs, steps, res, detail, recursive, suppress_history=False):
+ORDER_FP = ("mac [only when a coalesced item is reported at the position of its FIRST change]: an item's coalesced "
+            "ItemRenamed is processed before earlier changes of other items -> moved/created/deleted events out of order")
+
+
+def classify_mac(h, notifs, steps, res, detail, recursive, suppress_history=False, place="last"):
     F = macsim
     if not recursive:
         # counterfactual: the same schedule on a recursive watch, filtered as the property demands (events about
         # direct children of the root); if that replays correctly the non-recursive filter is the cause
-        r2 = exec_mac(h, notifs, steps, True, suppress_history)
+        r2 = exec_mac(h, notifs, steps, True, suppress_history, place)
         evs = [e for e in r2["events"] if (e[2] is not None and "/" not in e[2]) or (e[3] is not None and "/" not in e[3])]
         if r2["error"] is None and _top(fsops.replay_events(h.tree0, evs, False)) == _top(r2["final"]):
             return FILTER_FP
@@ -747,12 +778,10 @@ def classify_mac(h, notifs, steps, res, detail, recursive, suppress_history=Fals
                 cnt[(p, ident)] = cnt.get((p, ident), 0) + 1
         if any(v >= 2 for v in cnt.values()):
             return TWICE_FP
-    sig = " ".join(sorted({o[0] for o in h.ops}))
-    return (f"mac: replay-mismatch other [{'rec' if recursive else 'flat'}; ops {sig}] missing={len(detail['missing'])} "
-            f"stale={len(detail['extra'])} wrong={len(detail['wrong'])}")
+    return (f"mac: replay-mismatch unclassified [{'recursive' if recursive else 'non-recursive'}; missing={bool(detail['missing'])} "
+            f"stale={bool(detail['extra'])} wrong-kind={bool(detail['wrong'])}]")
 
 
-# =================================================================================================
 # =================================================================================================
 # one history under one configuration
 # =================================================================================================
@@ -811,16 +840,21 @@ def run_history(acc, layer, cfg, tree0, ops, cap_n):
             return
         variants = win_variants(h, recursive, cfg.get("parent_mod_max_burst", 99))
     else:
-        variants = [(dict(), mac_notifs(h))]
+        mn = mac_notifs(h)
+        variants = [(dict(place="last"), mn), (dict(place="first"), mn)]
     acc.histories += 1
     for variant, notifs in variants:
-        acc.sequences += 1
-        acc.records += len(notifs)
-        acc.maxrec = max(acc.maxrec, len(notifs))
+        first_place = variant.get("place") == "first"
+        if not first_place:
+            acc.sequences += 1
+            acc.records += len(notifs)
+            acc.maxrec = max(acc.maxrec, len(notifs))
         scheds, capped = schedules(notifs, len(h.ops), cap_n)
-        acc.capped += capped
+        acc.capped += capped and not first_place
         for mode, cut, steps in scheds:
-            probs, res = run_schedule(layer, cfg, h, notifs, steps)
+            if first_place and all(st[0] == "op" or _same_placement(notifs, st[1], st[2]) for st in steps):
+                continue     # no batch of this schedule depends on where a coalesced item is placed
+            probs, res = run_schedule(layer, cfg, h, notifs, steps, variant)
             acc.executions += 1
             if res["events"]:
                 acc.nontrivial += 1
@@ -829,25 +863,33 @@ def run_history(acc, layer, cfg, tree0, ops, cap_n):
                 key = (h.name(), repr(steps), repr(variant))
                 if acc.sample is None or key < acc.sample[0]:
                     acc.sample = (key, dict(layer=layer, cfg=cfg, variant=variant, history=h.name(),
-                                            schedule=_batches_str(layer, notifs, steps),
+                                            schedule=_batches_str(layer, notifs, steps, variant.get("place", "last")),
                                             events=[list(e[:6]) for e in res["events"]]))
             if probs:
                 acc.failing += 1
             for fp, msg in probs:
                 size = (len(h.ops), len(h.tree0), len(notifs), len(cut), mode != "end",
                         variant.get("parent_mod", False), variant.get("xdir") == "split", cfg.get("suppress_history", False),
-                        h.name(), repr(steps))
+                        first_place, h.name(), repr(steps))
                 old = acc.bad.get(fp)
                 if old is not None and old[0] <= size:
                     continue
                 case = dict(layer=layer, cfg=cfg, variant=variant, tree0=h.tree0, ops=[list(o) for o in h.ops],
                             steps=[list(s) for s in steps])
                 acc.problem(fp, size, f"{msg}\n history: {h.name()}\n configuration: {cfg} {variant}\n schedule: "
-                                      f"{_batches_str(layer, notifs, steps)}\n events (batch, class, src, dest, is_directory, "
+                                      f"{_batches_str(layer, notifs, steps, variant.get('place', 'last'))}\n events (batch, class, src, dest, is_directory, "
                                       f"is_synthetic): {[e[:6] for e in res['events']]}", case)
 
 
-def _batches_str(layer, notifs, steps):
+def _same_placement(notifs, lo, hi):
+    ch = [notifs[j][1] for j in range(lo, hi)]
+    keys = [(c[0], c[1]) for c in ch]
+    if len(set(keys)) == len(keys):
+        return True
+    return macsim.coalesce(ch, "first") == macsim.coalesce(ch, "last")
+
+
+def _batches_str(layer, notifs, steps, place="last"):
     out = []
     for st in steps:
         if st[0] == "op":
@@ -856,38 +898,57 @@ def _batches_str(layer, notifs, steps):
             out.append("[" + ", ".join(f"{winsim.ACTION_NAMES[notifs[j][1][0]]}({notifs[j][1][1]})" for j in range(st[1], st[2])) + "]")
         else:
             out.append("[" + ", ".join(f"({'<root>' if p is None else p} #{i} {macsim.flag_str(f)})" for p, i, f in
-                                       macsim.coalesce([notifs[j][1] for j in range(st[1], st[2])])) + "]")
+                                       macsim.coalesce([notifs[j][1] for j in range(st[1], st[2])], place)) + "]")
     return " ".join(out)
 
 
-def run_schedule(layer, cfg, h, notifs, steps):
+def _execute(layer, cfg, h, notifs, steps, place):
+    for attempt in range(3):
+        try:
+            if layer == "win":
+                return exec_win(h, notifs, steps, cfg["recursive"])
+            return exec_mac(h, notifs, steps, cfg["recursive"], cfg.get("suppress_history", False), place)
+        except OSError:
+            # the harness' own scratch operations failed (scratch directory removed from outside): run again
+            if attempt == 2:
+                raise
+
+
+def run_schedule(layer, cfg, h, notifs, steps, variant=None, _counterfactual=False):
     """-> ([(fingerprint, message)], execution result)"""
     recursive = cfg["recursive"]
     sh = cfg.get("suppress_history", False)
-    if layer == "win":
-        res = exec_win(h, notifs, steps, recursive)
-    else:
-        res = exec_mac(h, notifs, steps, recursive, sh)
+    place = (variant or {}).get("place", "last")
+    res = _execute(layer, cfg, h, notifs, steps, place)
     probs = []
     tag = f"{layer}{'' if recursive else ' non-recursive'}"
-    for clause, msg, detail in common_checks(h, res, recursive, layer):
+    checks = common_checks(h, res, recursive, layer)
+    contract = []
+    if not res["error"]:
+        contract = (win_contract(h, notifs, res, recursive) if layer == "win"
+                    else mac_contract(h, notifs, res, recursive, place))
+    if layer == "mac" and place == "first" and (checks or contract) and not _counterfactual:
+        # does the problem need the permissive placement of coalesced items?
+        p2, _ = run_schedule(layer, cfg, h, notifs, steps, dict(variant, place="last"), _counterfactual=True)
+        if not p2:
+            return [(ORDER_FP, (checks[0][1] if checks else contract[0][1]))], res
+    for clause, msg, detail in checks:
         if clause == "replay-mismatch":
             fp = (classify_win(h, notifs, steps, res, detail, recursive) if layer == "win"
-                  else classify_mac(h, notifs, steps, res, detail, recursive, sh))
+                  else classify_mac(h, notifs, steps, res, detail, recursive, sh, place))
         elif clause == "exception":
             fp = f"{tag}: {res['error'].split(':')[0]} escapes queue_events"
         else:
             fp = f"{tag}: {clause}"
         probs.append((fp, msg))
-    if not res["error"]:
-        if layer == "win":
-            for clause, msg in win_contract(h, notifs, res, recursive):
-                probs.append((f"{tag} {clause}", msg))
-            if res["leftover_reads"]:
-                probs.append(("INFRA scripted read not consumed", "queue_events did not read the scripted buffer"))
-        else:
-            for clause, msg, child_dir in mac_contract(h, notifs, res, recursive):
-                probs.append((FILTER_FP if child_dir else f"{tag} {clause}", msg))
+    if layer == "win":
+        for clause, msg in contract:
+            probs.append((f"{tag} {clause}", msg))
+        if res["leftover_reads"]:
+            probs.append(("INFRA scripted read not consumed", "queue_events did not read the scripted buffer"))
+    else:
+        for clause, msg, child_dir in contract:
+            probs.append((FILTER_FP if child_dir else f"{tag} {clause}", msg))
     seen = set()
     return [x for x in probs if not (x[0] in seen or seen.add(x[0]))], res
 
@@ -930,15 +991,17 @@ def history_part(ctx, pool, layer, cfg, trees, n, *, root_delete=False, cap_n=8,
     # big trees last would leave stragglers: schedule the most expensive jobs first
     jobs.sort(key=lambda j: -len(j[2]))
     total = Acc()
+    t0 = time.time()
     for acc in pool.imap_unordered(_job, jobs, chunksize=1):
         total.merge(acc)
+    print(f"  [{label}: {total.executions} executions, {total.failing} failing, {time.time() - t0:.1f}s]", flush=True)
     for fp, (size, msg, case) in sorted(total.bad.items()):
         infra = fp.split(" ", 1)[-1].startswith("INFRA") or "INFRA" in fp
         ctx.add_violation(dict(kind=fp.split(":")[0], fp=fp, msg=msg + f"\n (part {label})", prefix=[], harness="c20",
                                case=case, **({"infra": True} if infra else {})))
     ctx.add_enum(label, total.executions, total.nontrivial, samples=[total.sample[1]] if total.sample else [],
                  states=len(total.streams), transitions=total.records,
-                 exhaustive=True,
+                 exhaustive=total.capped == 0,
                  extra=dict(layer=layer, configuration=cfg, initial_trees=len(trees), burst_len=n, histories=total.histories,
                             notification_sequences=total.sequences, notification_records=total.records,
                             max_records_per_sequence=total.maxrec, executions=total.executions,
@@ -1138,17 +1201,18 @@ def setup(tier):
 def plan(tier):
     q = tier == "quick"
     T = fsops.small_trees
-    big, n = (T(2), 2) if q else (T(3), 3)
-    small, ns = (T(1), 2) if q else (T(2), 2)
-    W = lambda **kw: dict(recursive=True, **kw)
+    if q:
+        big, n, small = T(2), 2, T(1)
+    else:
+        big, n, small = T(3), 3, T(2)
     return [
         dict(layer="win", cfg=dict(recursive=True, parent_mod_max_burst=2), trees=big, n=n, label="W recursive"),
-        dict(layer="win", cfg=dict(recursive=False), trees=small, n=ns, label="W non-recursive"),
-        dict(layer="win", cfg=dict(recursive=True), trees=small if q else T(2), n=2, root_delete=True, label="W root deleted"),
+        dict(layer="win", cfg=dict(recursive=False), trees=small if q else big, n=2, label="W non-recursive"),
+        dict(layer="win", cfg=dict(recursive=True), trees=small, n=2, root_delete=True, label="W root deleted"),
         dict(layer="mac", cfg=dict(recursive=True), trees=big, n=n, label="M recursive"),
-        dict(layer="mac", cfg=dict(recursive=False), trees=big if q else T(2), n=2 if q else 3, label="M non-recursive"),
-        dict(layer="mac", cfg=dict(recursive=True, suppress_history=True), trees=small, n=ns, label="M recursive suppress_history"),
-        dict(layer="mac", cfg=dict(recursive=True), trees=small if q else T(2), n=2, root_delete=True, label="M root deleted"),
+        dict(layer="mac", cfg=dict(recursive=False), trees=big, n=2, label="M non-recursive"),
+        dict(layer="mac", cfg=dict(recursive=True, suppress_history=True), trees=small, n=2, label="M recursive suppress_history"),
+        dict(layer="mac", cfg=dict(recursive=True), trees=small, n=2, root_delete=True, label="M root deleted"),
     ]
 
 
@@ -1156,6 +1220,9 @@ def run(ctx):
     import multiprocessing
 
     setup(ctx.tier)
+    for prob in winsim.ROUNDTRIP_PROBLEMS:
+        ctx.add_violation(dict(kind="win-roundtrip", fp="win: round trip of a plain 4-record buffer through read_events fails",
+                               msg=prob, prefix=[], harness="c20", case=dict(layer="win-roundtrip")))
     mp = multiprocessing.get_context("fork")
     try:
         with mp.Pool(ctx.workers) as pool:
@@ -1172,7 +1239,10 @@ def replay(rec):
     case = rec["case"]
     layer = case["layer"]
     try:
-        if layer == "win-decoder":
+        if layer == "win-roundtrip":
+            print("round trip problems:", winsim.ROUNDTRIP_PROBLEMS)
+            bad = bool(winsim.ROUNDTRIP_PROBLEMS)
+        elif layer == "win-decoder":
             recs = [(a, "".join(chr(int(c, 16)) for c in nm)) for a, nm in case["records"]]
             buf, n = winsim.encode(recs, case["extra_padding_dwords"])
             got = winsim.winapi()._parse_event_buffer(buf + b"\xAA" * 8, n)
@@ -1191,10 +1261,10 @@ def replay(rec):
             v = case["variant"]
             notifs = (win_notifs(h, v["parent_mod"], v["xdir"], cfg["recursive"]) if layer == "win" else mac_notifs(h))
             steps = tuple(tuple(s) for s in case["steps"])
-            probs, res = run_schedule(layer, cfg, h, notifs, steps)
+            probs, res = run_schedule(layer, cfg, h, notifs, steps, v)
             print("history:", h.name())
             print("configuration:", cfg, v)
-            print("schedule:", _batches_str(layer, notifs, steps))
+            print("schedule:", _batches_str(layer, notifs, steps, v.get("place", "last")))
             print("events:", [e[:6] for e in res["events"]])
             print("final tree:", res["final"])
             for fp, msg in probs:
